@@ -274,13 +274,14 @@ func TestVerif_C14(t *testing.T) {
 			return
 		}
 		maxExp := vrun.Pick(r, 6, 7)
-		r.Bounds["writeN_all_n_up_to"] = 1 << 21
+		allN := vrun.Pick(r, 1<<21, 1<<25)
+		r.Bounds["writeN_all_n_up_to"] = allN
 		r.Bounds["writeN_powers_of_ten_up_to"] = "10^18 (+-1), powers of two up to 2^62 (+-1)"
 		r.Bounds["arg_len_every_value_up_to"] = 1100
 		r.Bounds["arg_len_powers_of_ten_up_to_exp"] = maxExp
 		r.Bounds["arg_counts"] = "0..12, 99..101, 999..1001, 9999..10001"
 		r.Bounds["bufio_writer_sizes"] = []int{16, 64, 4096}
-		r.Rule = "writeN for every n in [0,2^21] and 10^k-1,10^k,10^k+1 (k<=18), 2^k-1,2^k,2^k+1 (k<=62) with ids '*' and '$' against strconv; writeCmd for argument counts {0..12,99..101,999..1001,9999..10001} x 10 content schemes over {'', a, CRLF, '$3 CRLF abc', '*1 CRLF', binary, 40 bytes}; two-argument commands whose last argument has every length 0..1100 and 10^k-1,10^k,10^k+1 up to 10^max_exp filled with protocol look-alikes; all pairs and triples of 13 edge commands back to back (flushCmd for the last in half of them); bufio.Writer sizes 16, 64 and 4096; output decoded by an independent strict request parser, every byte consumed. non-trivial = argument containing CR/LF or '$'/'*', length or count >= 10, or more than one command"
+		r.Rule = "writeN for every n in [0,2^21] (thorough 2^25) and 10^k-1,10^k,10^k+1 (k<=18), 2^k-1,2^k,2^k+1 (k<=62) with ids '*' and '$' against strconv; writeCmd for argument counts {0..12,99..101,999..1001,9999..10001} x 10 content schemes over {'', a, CRLF, '$3 CRLF abc', '*1 CRLF', binary, 40 bytes}; two-argument commands whose last argument has every length 0..1100 and 10^k-1,10^k,10^k+1 up to 10^max_exp filled with protocol look-alikes; all pairs and triples of 13 edge commands back to back (flushCmd for the last in half of them); bufio.Writer sizes 16, 64 and 4096; output decoded by an independent strict request parser, every byte consumed. non-trivial = argument containing CR/LF or '$'/'*', length or count >= 10, or more than one command"
 		r.Assume("lengths above 2^40 cannot be produced by a real command (no such string fits in memory): writeN deviations there are recorded as notes, not violations")
 		r.Assume("the pipeline writer pipe._backgroundWrite calls writeCmd for every queued command in order on one bufio.Writer; back-to-back writeCmd calls on one writer model it (the goroutine machinery itself is covered by the ring/pipe properties)")
 
@@ -288,12 +289,12 @@ func TestVerif_C14(t *testing.T) {
 		// ---- A. writeN
 		idx := 0
 		for _, id := range []byte{'*', '$'} {
-			for base := 0; base <= 1<<21; base += 1 << 14 {
+			for base := 0; base <= allN; base += 1 << 14 {
 				idx++
 				if !r.Mine(idx) {
 					continue
 				}
-				for n := base; n < base+1<<14 && n <= 1<<21; n++ {
+				for n := base; n < base+1<<14 && n <= allN; n++ {
 					e.num(&c14case{Kind: "num", ID: id, N: n, Buf: 0})
 				}
 				if base < 1<<16 {
